@@ -208,6 +208,30 @@ def shapes(tier="quick", seed=0):
                                                    summary="Sum \"mary\"", description="Line one\nLine two with \\ backslash")],
                          {"Doc": obj({"t": {"type": "string", "description": "prop \"desc\"", "default": "dflt"}}, description="A doc.\n\nWith paragraphs.")},
                          info_extra={"description": "API \"desc\" with 'quotes'"}), free_text=True)
+    # --- response kinds: several content types on one response, arrays / maps / enums / unions / primitives of every flavour ---------
+    add("multi-content-response", doc("MR", [
+        op("/report/{id}", "get", "getReport", ["rep"], [param("id", "path")], responses={
+            "200": {"description": "ok", "content": {"application/json": {"schema": ref("Pet")}, "text/plain": {"schema": PRIMS["str"]}}},
+            "404": {"description": "nf", "content": {"application/json": {"schema": ref("Err")}}}}),
+        op("/blob/{id}", "get", "getBlob", ["rep"], [param("id", "path")], responses={
+            "200": {"description": "ok", "content": {"application/json": {"schema": ref("Pet")}, "application/octet-stream": {"schema": PRIMS["binary"]}}}})], S),
+        multi_content_response=True)
+    KINDS = dict(S, Color={"type": "string", "enum": ["red", "dark-green", "BLUE"]},
+                 Cat=obj({"petType": PRIMS["str"], "lives": PRIMS["int"]}, ["petType"]), Dog=obj({"petType": PRIMS["str"], "bark": PRIMS["bool"]}, ["petType"]),
+                 Animal={"oneOf": [ref("Cat"), ref("Dog")], "discriminator": {"propertyName": "petType", "mapping": {"cat": "#/components/schemas/Cat", "dog": "#/components/schemas/Dog"}}},
+                 Owner=obj({"id": PRIMS["uuid"], "since": PRIMS["datetime"], "pets": {"type": "array", "items": ref("Pet")}, "byName": {"type": "object", "additionalProperties": ref("Pet")},
+                            "favourite": ref("Color"), "best": ref("Animal"), "note": {"type": "string", "nullable": True}}, ["id"]))
+    add("response-kinds", doc("RK", [
+        op("/k/list", "get", "listPets", ["k"], responses={"200": resp_json({"type": "array", "items": ref("Pet")})}),
+        op("/k/map", "get", "mapPets", ["k"], responses={"200": resp_json({"type": "object", "additionalProperties": ref("Pet")})}),
+        op("/k/enum", "get", "getColor", ["k"], responses={"200": resp_json(ref("Color"))}),
+        op("/k/union", "get", "getAnimal", ["k"], responses={"200": resp_json(ref("Animal"))}),
+        op("/k/owner", "get", "getOwner", ["k"], responses={"200": resp_json(ref("Owner"))}),
+        op("/k/int", "get", "getCount", ["k"], responses={"200": resp_json(PRIMS["int"])}),
+        op("/k/bool", "get", "getFlag", ["k"], responses={"200": resp_json(PRIMS["bool"])}),
+        op("/k/any", "get", "getAny", ["k"], responses={"200": resp_json({})}),
+        op("/k/owner", "put", "putOwner", ["k"], None, body_json(ref("Owner")), {"200": resp_json(ref("Owner")), "201": {"description": "created"}}),
+    ], KINDS), response_kinds=True)
     if tier == "thorough":
         rnd = random.Random(seed)
         prim_names = list(PRIMS)
